@@ -30,24 +30,31 @@ type exec struct {
 }
 
 type out struct {
-	Scenario    string         `json:"scenario"`
-	Granularity string         `json:"granularity"`
-	Bound       int            `json:"preemption_bound"`
-	Executions  int64          `json:"executions"`
-	Points      int64          `json:"scheduling_points"`
-	MaxPoints   int            `json:"max_points_in_one_execution"`
-	MaxThreads  int            `json:"max_threads"`
-	Preempted   int64          `json:"executions_with_preemption"`
-	Outcomes    map[string]int `json:"outcomes"`
-	Complete    bool           `json:"complete"`
-	Cap         string         `json:"cap,omitempty"`
-	Violation   string         `json:"violation,omitempty"`
-	Schedule    []int          `json:"schedule,omitempty"`
-	Children    [][]int        `json:"children,omitempty"`
-	Found       []int          `json:"found_schedule,omitempty"`
-	Trace       []string       `json:"trace,omitempty"` // replay only: external operations and lookup results in order
-	Labels      []string       `json:"schedule_labels,omitempty"`
-	WallS       float64        `json:"wall_s"`
+	Scenario    string            `json:"scenario"`
+	Granularity string            `json:"granularity"`
+	Bound       int               `json:"preemption_bound"`
+	Executions  int64             `json:"executions"`
+	Points      int64             `json:"scheduling_points"`
+	MaxPoints   int               `json:"max_points_in_one_execution"`
+	MaxThreads  int               `json:"max_threads"`
+	Preempted   int64             `json:"executions_with_preemption"`
+	Outcomes    map[string]int    `json:"outcomes"`
+	Complete    bool              `json:"complete"`
+	Cap         string            `json:"cap,omitempty"`
+	Violation   string            `json:"violation,omitempty"`
+	Known       map[string]knownT `json:"known_classes,omitempty"`
+	Schedule    []int             `json:"schedule,omitempty"`
+	Children    [][]int           `json:"children,omitempty"`
+	Found       []int             `json:"found_schedule,omitempty"`
+	Trace       []string          `json:"trace,omitempty"` // replay only: external operations and lookup results in order
+	Labels      []string          `json:"schedule_labels,omitempty"`
+	WallS       float64           `json:"wall_s"`
+}
+
+type knownT struct {
+	Count    int    `json:"executions"`
+	Message  string `json:"message"`
+	Schedule []int  `json:"first_schedule"`
 }
 
 var (
@@ -164,6 +171,23 @@ func record(x *exec) bool {
 	}
 	if x.preemptionsBefore(len(x.points)) > 0 {
 		o.Preempted++
+	}
+	if strings.HasPrefix(x.msg, "class:") {
+		// a violation of a recorded finding class: remember the first schedule that shows it and go on
+		// exploring, so that any other violation in the same tree is still found and reported
+		i := strings.Index(x.msg, "|")
+		cls := x.msg[:i]
+		if o.Known == nil {
+			o.Known = map[string]knownT{}
+		}
+		k := o.Known[cls]
+		if k.Count == 0 {
+			k.Message, k.Schedule = x.msg[i+1:], append([]int{}, x.raw...)
+		}
+		k.Count++
+		o.Known[cls] = k
+		o.Outcomes["KNOWN "+cls]++
+		return true
 	}
 	if x.msg != "" {
 		// determinism: the same schedule must fail the same way twice more
